@@ -12,6 +12,16 @@ Z3_RETRY_MS = int(os.environ.get("DVC_Z3_RETRY_MS", "30000"))
 CVC5 = "/usr/bin/cvc5"
 
 
+def _load_scale():
+    """wall-clock budgets are stretched when the machine is busier than its core count (other checks running beside this
+    one), so that a verdict does not flip to 'unknown' because the solver got a fraction of a core"""
+    try:
+        per_core = os.getloadavg()[0] / float(os.cpu_count() or 1)
+    except OSError:
+        return 1.0
+    return max(1.0, min(4.0, per_core))
+
+
 def to_smt2(hyps, goal, extra_decls=()):
     s = z3.Solver()
     for h in hyps:
@@ -44,6 +54,7 @@ def _model_to_dict(m):
 
 
 def _run_z3(smt2, timeout_ms, seed=0, tactic=None):
+    timeout_ms = int(timeout_ms * _load_scale())
     t0 = time.time()
     try:
         ctx = z3.Context()
@@ -77,6 +88,7 @@ def _run_z3(smt2, timeout_ms, seed=0, tactic=None):
 
 
 def _run_cvc5(smt2, timeout_ms):
+    timeout_ms = int(timeout_ms * _load_scale())
     t0 = time.time()
     with tempfile.NamedTemporaryFile("w", suffix=".smt2", delete=False) as f:
         txt = smt2
@@ -111,7 +123,9 @@ def solve_one(job):
         opts.pop("phase1")
         opts.update(cvc5=False, no_retry=True, z3_ms=min(opts.get("z3_ms", Z3_TIMEOUT_MS), 5000))
         if opts.get("triage"):
-            opts.pop("full", None)
+            if opts.pop("full", None) is not None:
+                # only the quantifier-free hypotheses are used: 'unsat' still proves the obligation, a model proves nothing
+                opts["qf_only"] = True
     full = opts.get("full")
     if full is not None:
         # first without the quantified hypotheses (dropping hypotheses is sound for 'proved')
@@ -142,6 +156,8 @@ def solve_one(job):
     if r == "unsat":
         return (key, "proved", None, "z3", secs)
     if r == "sat":
+        if opts.get("qf_only"):
+            return (key, "unknown", {"candidate_model": info, "reason": "triage budget: quantified hypotheses not used"}, "none", secs)
         return (key, "refuted", info, "z3", secs)
     reason = info
     if use_cvc5:
